@@ -62,4 +62,30 @@ Region(e, r, c, D) ==
           : rr \in (r - CArm(e, r, c, D, -1, 0))..(r + CArm(e, r, c, D, 1, 0))}
 AggSum(e, r, c, D, k) == MapThenSumSet(LAMBDA x : CostOr0(e, x[1], x[2], k), Region(e, r, c, D))
 AggCount(e, r, c, D) == Cardinality(Region(e, r, c, D))
+
+\* ---- the same definitions over precomputed tables (TLC does not memoise operator applications; a table bound by a LET is
+\* evaluated once per case).  MC_Aggregation checks that the tabled region equals the region defined above.
+AggSides(e) == {<<"L", 0>>} \cup {<<"R", k>> : k \in 0..(e.s - 1)}
+PreTable(e) == [sd \in AggSides(e) |-> [r \in 1..e.rows |-> [c \in 1..ICols(e, sd) |-> Pre2(e, sd, r, c)]]]
+InCropT(e, sd, r, c) == InCrop(e, sd, r, c)
+RECURSIVE RunT(_, _, _, _, _, _, _, _)
+RunT(e, PT, sd, r, c, dr, dc, i) ==
+   IF i > e.dist - 1 THEN 0
+   ELSE LET rr == r + i * dr  cc == c + i * dc
+        IN IF InCrop(e, sd, rr, cc) /\ PT[sd][rr][cc] # Inf /\ Abs(PT[sd][r][c] - PT[sd][rr][cc]) < e.int2
+           THEN 1 + RunT(e, PT, sd, r, c, dr, dc, i + 1) ELSE 0
+ArmT(e, PT, sd, r, c, dr, dc) ==
+   IF PT[sd][r][c] = Inf THEN 0
+   ELSE LET n == RunT(e, PT, sd, r, c, dr, dc, 1)
+        IN IF n > 0 THEN n ELSE IF InCrop(e, sd, r + dr, c + dc) /\ PT[sd][r + dr][c + dc] # Inf THEN 1 ELSE 0
+Dirs4 == <<<<0, -1>>, <<0, 1>>, <<-1, 0>>, <<1, 0>>>>          \* left, right, up, down
+ArmTable(e) == LET PT == PreTable(e)
+               IN [sd \in AggSides(e) |-> [r \in 1..e.rows |-> [c \in 1..ICols(e, sd) |->
+                     [i \in 1..4 |-> ArmT(e, PT, sd, r, c, Dirs4[i][1], Dirs4[i][2])]]]]
+CArmTab(e, T, r, c, D, i) == Min2(T[<<"L", 0>>][r][c][i], T[<<"R", AggK(e, D)>>][r][c + AggDi(e, D)][i])
+RegionTab(e, T, r, c, D) ==
+   UNION {{<<rr, cc>> : cc \in (c - CArmTab(e, T, rr, c, D, 1))..(c + CArmTab(e, T, rr, c, D, 2))}
+          : rr \in (r - CArmTab(e, T, r, c, D, 3))..(r + CArmTab(e, T, r, c, D, 4))}
+AggSumTab(e, T, r, c, D, k) == MapThenSumSet(LAMBDA x : CostOr0(e, x[1], x[2], k), RegionTab(e, T, r, c, D))
+AggCountTab(e, T, r, c, D) == Cardinality(RegionTab(e, T, r, c, D))
 =============================================================================
